@@ -435,6 +435,24 @@ func swapAndTamper(r *core.Run, rd *core.Rand, w *v2World, tamper bool, allValue
 				try(byte(1 + rd.Intn(255)))
 			}
 		}
+		// a byte change is also an insertion, an appended tail or a truncation: every such file must be refused
+		tryFile := func(what string, m []byte) {
+			overwrite(inner, a+".keyring", m)
+			_, err := w.readerOpens(a)
+			r.Tag("tamper-try")
+			if err == nil {
+				undetected++
+				r.Fail("tamper-undetected:resize", fmt.Sprintf("ring file %q %s (now %d of %d bytes) still loads", a, what, len(m), len(d)))
+			}
+		}
+		for _, tail := range [][]byte{{0}, {0xff}, {0x30, 0x00}, rd.Bytes(1 + rd.Intn(16)), d[:min(len(d), 8)]} {
+			tryFile(fmt.Sprintf("with %d bytes appended", len(tail)), append(append([]byte{}, d...), tail...))
+		}
+		for _, cut := range []int{1, 2, 1 + rd.Intn(len(d)-1), len(d) / 2} {
+			tryFile(fmt.Sprintf("truncated by %d bytes", cut), append([]byte{}, d[:len(d)-cut]...))
+		}
+		ins := 1 + rd.Intn(len(d)-1)
+		tryFile(fmt.Sprintf("with a byte inserted at %d", ins), append(append(append([]byte{}, d[:ins]...), byte(rd.Intn(256))), d[ins:]...))
 		restore()
 	}
 }
